@@ -198,34 +198,368 @@ def branch_labels(case, obs):
     return out
 
 
+
+# ================================================================================================================
+# function-level correspondence (model tie): the real parsing / assembling functions vs Model/C01.lean
+import re as _re
+SIMPLE_AUTH = _re.compile(rb"[A-Za-z0-9.\-]+(:[0-9]{1,5})?\Z")
+
+
+def show_fields(fs):
+    return "-" if not fs else ",".join(hx(k) + ":" + hx(v) for k, v in fs)
+
+
+def show_size(f):
+    try:
+        n = f()
+    except ValueError:
+        return "err"
+    return "chunked" if n is None else "eof" if n == -1 else str(n)
+
+
+def real_extract(data):
+    from h11._receivebuffer import ReceiveBuffer
+    buf = ReceiveBuffer(); buf += data
+    lines = buf.maybe_extract_lines()
+    return lines, bytes(buf)
+
+
+def impl_reqhead(data):
+    from mitmproxy.net.http import http1, validate
+    lines, rest = real_extract(data)
+    if lines is None: return "more"
+    if lines == []: return "blank " + hx(rest)
+    try:
+        r = http1.read_request_head([bytes(x) for x in lines])
+    except ValueError:
+        return "err " + hx(rest)
+    try:
+        validate.validate_headers(r); v = "valid"
+    except ValueError:
+        v = "invalid"
+    d = r.data
+    return " ".join(["ok", hx(d.method), hx(d.scheme), hx(d.authority), hx(d.path), hx(d.http_version), show_fields(r.headers.fields), v,
+                     show_size(lambda: http1.expected_http_body_size(r)),
+                     "close" if http1.connection_close(d.http_version, r.headers) else "keep", hx(rest)])
+
+
+def impl_resphead(method, data):
+    from mitmproxy.net.http import http1, validate
+    from mitmproxy import http
+    lines, rest = real_extract(data)
+    if lines is None: return "more"
+    if lines == []: return "blank " + hx(rest)
+    try:
+        r = http1.read_response_head([bytes(x) for x in lines])
+    except ValueError:
+        return "err " + hx(rest)
+    try:
+        validate.validate_headers(r); v = "valid"
+    except ValueError:
+        v = "invalid"
+    req = http.Request.make("GET", "http://origin.example/"); req.data.method = method
+    return " ".join(["ok", hx(r.data.http_version), str(r.status_code), hx(r.data.reason), show_fields(r.headers.fields), v,
+                     show_size(lambda: http1.expected_http_body_size(req, r)),
+                     "close" if http1.connection_close(r.data.http_version, r.headers) else "keep", hx(rest)])
+
+
+def _ctx():
+    from mitmproxy.test import taddons
+    from mitmproxy.addons import proxyserver
+    from common.world import make_context
+    tctx = taddons.context(proxyserver.Proxyserver())
+    return make_context(opts=tctx.options)
+
+
+def impl_fwdreq(data, body):
+    """the real Http1Client.send for RequestHeaders / RequestData / RequestEndOfMessage of a buffered request"""
+    from mitmproxy.net.http import http1
+    from mitmproxy.proxy import events, commands
+    from mitmproxy.proxy.layers.http import _http1, _events
+    from mitmproxy.connection import Server, ConnectionState
+    lines, rest = real_extract(data)
+    if not lines: return "err"
+    try:
+        r = http1.read_request_head([bytes(x) for x in lines])
+    except ValueError:
+        return "err"
+    from mitmproxy.net.http import validate
+    try:
+        validate.validate_headers(r)
+    except ValueError:
+        return "invalid"          # never reaches send(): rejected by check_invalid
+    ctx = _ctx(); ctx.server = Server(address=("origin.example", 80)); ctx.server.state = ConnectionState.OPEN
+    c = _http1.Http1Client(ctx)
+    list(c.handle_event(events.Start()))
+    out = b""
+    evs = [_events.RequestHeaders(1, r, not body)] + ([_events.RequestData(1, body)] if body else []) + [_events.RequestEndOfMessage(1)]
+    for e in evs:
+        for cmd in c.handle_event(e):
+            if isinstance(cmd, commands.SendData): out += cmd.data
+    return hx(out)
+
+
+def impl_fwdresp(method, data, body):
+    from mitmproxy.net.http import http1
+    from mitmproxy import http
+    from mitmproxy.proxy import events, commands
+    from mitmproxy.proxy.layers.http import _http1, _events
+    lines, rest = real_extract(data)
+    if not lines: return "err"
+    try:
+        r = http1.read_response_head([bytes(x) for x in lines])
+    except ValueError:
+        return "err"
+    from mitmproxy.net.http import validate
+    try:
+        validate.validate_headers(r)
+    except ValueError:
+        return "invalid"
+    ctx = _ctx()
+    s = _http1.Http1Server(ctx)
+    list(s.handle_event(events.Start()))
+    req = http.Request.make("GET", "http://origin.example/"); req.data.method = method
+    s.request = req
+    out = b""
+    evs = [_events.ResponseHeaders(1, r, not body)] + ([_events.ResponseData(1, body)] if body else []) + [_events.ResponseEndOfMessage(1)]
+    for e in evs:
+        for cmd in s.handle_event(e):
+            if isinstance(cmd, commands.SendData): out += cmd.data
+    return hx(out)
+
+
+REF_CLASS = {"bad-field-name": 1, "cl+te": 2, "te-unknown": 3, "te-chunked-not-final": 4, "te-http10": 5, "te-on-1xx-204": 6,
+             "te-request-not-chunked": 7, "cl-malformed": 8, "cl-conflict": 9}
+
+
+def show_stop(st):
+    if st is None: return "end"
+    if st[0] == "ambiguous": return "ambiguous:%d" % REF_CLASS[st[1]]
+    if st[0] == "incomplete": return "incomplete"
+    if st[0] == "tunnel": return "end"
+    return "malformed"
+
+
+def show_msg(m):
+    fr = m["framing"]
+    if fr == "cl": fr = "cl%d" % len(m["body"])
+    if m["kind"] == "request":
+        a, b, c = m["method"], m["target"], m["version"]
+    else:
+        a, b, c = m["version"], b"%03d" % m["status"], m["reason"]
+    return "/".join([hx(a), hx(b), hx(c), show_fields(m["fields"]), hx(m["body"]), fr])
+
+
+def impl_refreqs(data):
+    p = R.parse_requests(data)
+    return (";".join(show_msg(m) for m in p.messages) or "-") + " " + show_stop(p.stop)
+
+
+def impl_refresp(method, eof, data):
+    p = R.parse_responses(data, [method], eof=eof)
+    if p.messages:
+        m = p.messages[0]
+        return "ok " + show_msg(m) + " " + hx(data[m["end"]:])
+    return show_stop(p.stop) if p.stop else "incomplete"
+
+
+def fn_impl(case):
+    op = case["op"]
+    d = unhx(case.get("data_hex", "-"))
+    if op == "reqhead": return impl_reqhead(d)
+    if op == "resphead": return impl_resphead(unhx(case["method_hex"]), d)
+    if op == "fwdreq": return impl_fwdreq(d, unhx(case["body_hex"]))
+    if op == "fwdresp": return impl_fwdresp(unhx(case["method_hex"]), d, unhx(case["body_hex"]))
+    if op == "refreqs": return impl_refreqs(d)
+    if op == "refresp": return impl_refresp(unhx(case["method_hex"]), bool(case["eof"]), d)
+    if op == "unfold": return hx(R.unfold(d))
+    if op == "te":
+        from mitmproxy.net.http import validate
+        try:
+            t = validate.parse_transfer_encoding(d)
+        except ValueError:
+            return "err"
+        return ("chunked " if t.endswith("chunked") else "other ") + hx(t.encode())
+    if op == "cl":
+        from mitmproxy.net.http import validate
+        try:
+            return str(validate.parse_content_length(d))
+        except ValueError:
+            return "err"
+    raise KeyError(op)
+
+
+def fn_lines(case):
+    op = case["op"]
+    d = case.get("data_hex", "-")
+    if op in ("reqhead", "fwdreq"):
+        # the authority check (url.parse_authority / url.parse) is a model parameter: only simple authorities are compared
+        raw = unhx(d)
+        first = raw.lstrip(b"\r\n").split(b"\n", 1)[0]
+        parts = first.split()
+        if len(parts) == 3 and not (parts[1] == b"*" or parts[1].startswith(b"/")):
+            t = parts[1]
+            auth = t if parts[0] == b"CONNECT" else (t.split(b"://", 1)[1].partition(b"/")[0] if b"://" in t else None)
+            scheme_ok = parts[0] == b"CONNECT" or t.split(b"://", 1)[0].lower() in (b"http", b"https")
+            if auth is None or not SIMPLE_AUTH.match(auth) or not scheme_ok or (parts[0] == b"CONNECT" and b":" not in auth):
+                return None
+            if b":" in auth and not (1 <= int(auth.split(b":")[1]) <= 65535): return None
+            if any(c in t for c in b"\x00\x7f") or any(c < 0x21 or c > 0x7e for c in t): return None
+    if op in ("fwdreq",) and (b" HTTP/2.0" in unhx(d).split(b"\n")[0] or b" HTTP/3.0" in unhx(d).split(b"\n")[0]): return None   # h2->h1 conversion path (C06)
+    if op == "reqhead": return [f"reqhead {d}"]
+    if op == "resphead": return [f"resphead {case['method_hex']} {d}"]
+    if op == "fwdreq": return [f"fwdreq {d} {case['body_hex']}"]
+    if op == "fwdresp": return [f"fwdresp {case['method_hex']} {d} {case['body_hex']}"]
+    if op == "refreqs": return [f"refreqs {d}"]
+    if op == "refresp": return [f"refresp {case['method_hex']} {case['eof']} {d}"]
+    return [f"{op} {d}"]
+
+
+def lean_bytes(b: bytes) -> str:
+    return "[" + ", ".join(str(x) for x in b) + "]"
+
+
 class Check(PropertyCheck):
     prop = "C01"
     design_ref = "§5 C01"
-    level_text = "TODO"
-    level_note = "TODO"
-    technique = "Lean 4 proof + differential correspondence + independent reference parser oracle"
-    rule = "TODO"
-    budget = {"quick": 2500, "thorough": 120000}
-    time_budget = {"quick": 35, "thorough": 600}
-    fingerprints = []
-    trusted_base = []
+    level_text = ("Lean theorems about the executable model of mitmproxy's HTTP/1 reading and writing functions (h11 "
+                  "maybe_extract_lines, _read_headers, request/status line, validate_headers, parse_transfer_encoding over the "
+                  "regenerated whitelist, parse_content_length, expected_http_body_size, head assembly and the chunk re-framing of "
+                  "Http1Client.send/Http1Server.send) against `Ref`, a strict RFC 9112 reader written as the specification: for ALL "
+                  "field lists, a message the proxy accepts is never one the reference reader calls ambiguous (requests and responses, "
+                  "every ambiguity class); for ALL accepted requests/responses and ALL bodies consistent with the headers the bytes "
+                  "written by the proxy are read back by the reference reader as exactly that message (method/target/status, fields "
+                  "up to obs-fold canonicalisation, body), also after addon edits that keep validate_headers true, and pipelined "
+                  "messages by induction. The real HttpLayer (regular/reverse/transparent, validate_inbound_headers on) is checked "
+                  "directly: bytes written upstream/downstream are parsed by an independent Python RFC 9112 parser and compared "
+                  "with the flows recorded at the hooks; the model is tied function by function to the real code and the Lean Ref "
+                  "to the Python reference parser.")
+    level_note = "see evidence; parts proved under explicit hypotheses are listed in the final report"
+    technique = "Lean 4 proof (induction over field lists / bytes) + translator table + function-level differential correspondence + independent reference-parser oracle on the real layer"
+    rule = ("x: grammar-directed exchanges (1-3 pipelined requests x scripted origin responses x addon edit script x mode; ~70% "
+            "valid, ~20% one-byte/line mutations, ~10% token soup), 30% with a random segmentation; fn: the request and response "
+            "heads, TE/CL values, bodies of the same grammar fed to single functions (model tie) and to both reference parsers. "
+            "distinct = distinct case; non-trivial = at least one flow / a non-empty input.")
+    budget = {"quick": 4000, "thorough": 150000}
+    time_budget = {"quick": 30, "thorough": 540}
+    fingerprints = ["mitmproxy.net.http.http1.read:_read_headers", "mitmproxy.net.http.http1.read:_read_request_line",
+                    "mitmproxy.net.http.http1.read:_read_response_line", "mitmproxy.net.http.http1.read:expected_http_body_size",
+                    "mitmproxy.net.http.http1.read:connection_close", "mitmproxy.net.http.http1.read:raise_if_http_version_unknown",
+                    "mitmproxy.net.http.validate:validate_headers", "mitmproxy.net.http.validate:parse_content_length",
+                    "mitmproxy.net.http.validate:parse_transfer_encoding",
+                    "mitmproxy.net.http.http1.assemble:assemble_request_head", "mitmproxy.net.http.http1.assemble:assemble_response_head",
+                    "mitmproxy.net.http.http1.assemble:_assemble_request_line", "mitmproxy.net.http.http1.assemble:_assemble_response_line",
+                    "mitmproxy.http:Headers.__bytes__",
+                    "mitmproxy.proxy.layers.http._http1:Http1Client.send", "mitmproxy.proxy.layers.http._http1:Http1Server.send",
+                    "mitmproxy.proxy.layers.http._http1:Http1Server.read_headers", "mitmproxy.proxy.layers.http._http1:Http1Client.read_headers",
+                    "mitmproxy.proxy.layers.http._http1:Http1Connection.read_body",
+                    "mitmproxy.proxy.layers.http:HttpStream.check_invalid", "mitmproxy.proxy.layers.http:validate_request"]
+    trusted_base = ["h11 ReceiveBuffer.maybe_extract_lines and the h11 body readers as transcribed in the model (tied by the correspondence)",
+                    "mitmproxy.net.http.url.parse_authority / url.parse: a model parameter (authOk); only simple host[:port] authorities are compared",
+                    "harness/common/refparsers.py (independent strict RFC 9112 parser) as the oracle; tied to its Lean twin `Ref` on every run"]
     parallel = True
-    has_model = False
+    has_model = True
+
+    # ---- translator ---------------------------------------------------------------------------------------------
+    def translate(self):
+        import typing
+        from mitmproxy.net.http import validate, http1
+        from mitmproxy import http
+        wl = sorted(typing.get_args(validate.TransferEncoding))
+        assert set(wl) == set(validate._HTTP_1_1_TRANSFER_ENCODINGS)
+        chunked, other, identity = [], [], []
+        for te in wl:
+            resp = http.Response.make(200, b"", {"Transfer-Encoding": te}); resp.headers.pop("content-length", None)
+            req = http.Request.make("GET", "http://origin.example/")
+            n = http1.expected_http_body_size(req, resp)
+            (chunked if n is None else other).append(te)
+            # the request-side special case: a non-chunked coding that falls through to Content-Length even without one
+            rq = http.Request.make("POST", "http://origin.example/", b"", {"Transfer-Encoding": te}); rq.headers.pop("content-length", None)
+            if n is not None and http1.expected_http_body_size(rq) == 0: identity.append(te)
+        assert len(identity) == 1
+        L = ["/- generated by harness/c01.py translate() from /repo — do not edit -/",
+             "import MitmVerif.Basic.Bytes", "namespace MitmVerif.Gen.C01", "open MitmVerif", "",
+             "/-- validate._HTTP_1_1_TRANSFER_ENCODINGS members for which expected_http_body_size says 'chunked' -/",
+             "def teChunked : List Bytes := [" + ", ".join(lean_bytes(t.encode()) for t in chunked) + "]",
+             "/-- the other members (read until close for responses) -/",
+             "def teOther : List Bytes := [" + ", ".join(lean_bytes(t.encode()) for t in other) + "]",
+             "/-- the member that falls through to Content-Length on a request without Content-Length -/",
+             "def teIdentity : Bytes := " + lean_bytes(identity[0].encode()),
+             "/-- transfer codings the reference reader knows (harness/common/refparsers.py KNOWN_CODINGS) -/",
+             "def refCodings : List Bytes := [" + ", ".join(lean_bytes(t) for t in sorted(R.KNOWN_CODINGS)) + "]",
+             "end MitmVerif.Gen.C01", ""]
+        return {"MitmVerif/Gen/C01.lean": "\n".join(L)}
+
+    # ---- generator ----------------------------------------------------------------------------------------------
+    def fn_cases(self, rng):
+        """function-level cases cut from the same grammar"""
+        r = rng.random()
+        if r < 0.3:
+            req = X.gen_request(rng, rng.pick(["regular", "reverse"]))
+            if rng.chance(0.25): req = X.mutate(rng, req)
+            yield {"op": "reqhead", "data_hex": hx(req)}
+            yield {"op": "refreqs", "data_hex": hx(req + (X.gen_request(rng, "reverse") if rng.chance(0.3) else b""))}
+            if rng.chance(0.5): yield {"op": "fwdreq", "data_hex": hx(req), "body_hex": hx(X.gen_body(rng))}
+        elif r < 0.6:
+            resp = X.gen_response(rng)
+            if rng.chance(0.25): resp = X.mutate(rng, resp)
+            m = rng.pick([b"GET", b"HEAD", b"head", b"CONNECT", b"POST"])
+            yield {"op": "resphead", "method_hex": hx(m), "data_hex": hx(resp)}
+            yield {"op": "refresp", "method_hex": hx(m), "eof": rng.randint(0, 1), "data_hex": hx(resp)}
+            if rng.chance(0.5): yield {"op": "fwdresp", "method_hex": hx(m), "data_hex": hx(resp), "body_hex": hx(X.gen_body(rng))}
+        elif r < 0.75:
+            v = rng.pick(X.TE_VALUES)
+            if rng.chance(0.4): v = X.mutate(rng, v) if v else v
+            yield {"op": "te", "data_hex": hx(v)}
+        elif r < 0.85:
+            v = rng.pick(X.CL_VALUES)
+            if rng.chance(0.4): v = X.mutate(rng, v) if v else v
+            yield {"op": "cl", "data_hex": hx(v)}
+        elif r < 0.93:
+            yield {"op": "unfold", "data_hex": hx(rng.pick([b"a\r\n b", b" a \r\n\t b \r\n  c ", b"\r\n x", b"a\r\n ", b"a\n b", b"plain", b"", b"a\r"]) )}
+        else:
+            body = X.chunked_body(rng, X.gen_body(rng))
+            if rng.chance(0.3): body = X.mutate(rng, body)
+            yield {"op": "refreqs", "data_hex": hx(b"POST / HTTP/1.1\r\nHost: h\r\nTransfer-Encoding: chunked\r\n\r\n" + body)}
 
     def generate(self, rng, tier):
+        for v in X.TE_VALUES: yield {"op": "te", "data_hex": hx(v)}
+        for v in X.CL_VALUES: yield {"op": "cl", "data_hex": hx(v)}
         while True:
-            c = X.gen_exchange(rng)
-            if rng.chance(0.3): c = X.gen_schedule(rng, c)
-            yield c
+            if rng.chance(0.45):
+                c = X.gen_exchange(rng); c["op"] = "x"
+                if rng.chance(0.3): c = X.gen_schedule(rng, c)
+                yield c
+            else:
+                yield from self.fn_cases(rng)
 
     def impl(self, case):
-        return X.run(case)
+        if case.get("op", "x") == "x":
+            return X.run(case)
+        return {"fn": fn_impl(case)}
 
     def oracle(self, case, obs):
-        return oracle_c01(case, obs)
+        if case.get("op", "x") == "x":
+            return oracle_c01(case, obs)
+        return []
+
+    def model_lines(self, case):
+        if case.get("op", "x") == "x":
+            return None
+        return fn_lines(case)
+
+    def model_obs(self, case, replies):
+        return replies[0]
+
+    def impl_view(self, case, obs):
+        return obs["fn"]
 
     def classify(self, case, obs):
-        return json.dumps([case["mode"], case["client_hex"], [r["data_hex"] for r in case["resps"]], case.get("edits")])
+        if case.get("op", "x") == "x":
+            return json.dumps([case["mode"], case["client_hex"], [r["data_hex"] for r in case["resps"]], case.get("edits")]) if obs["flows"] else None
+        return json.dumps(case, sort_keys=True) if case.get("data_hex", "-") != "-" else None
 
     def branches(self, case, obs):
-        return branch_labels(case, obs)
+        if case.get("op", "x") == "x":
+            return branch_labels(case, obs)
+        return ["fn:" + case["op"] + ":" + obs["fn"].split(" ")[0][:12]]
